@@ -334,25 +334,25 @@ Proof. reflexivity. Qed.
 
 (* A wait that accepts every sender, whose own ticker never fires before the watcher's: every
    well-formed start message that arrives before the watcher's bound is honoured. *)
-Lemma timed_wait_honours : forall timeout watch msgs deadline,
+Lemma timed_run_honours : forall timeout watch msgs deadline,
   (watch <= deadline)%N -> (watch <= timeout)%N ->
-  honoured watch msgs (runs_of (fst (timed_wait None timeout watch deadline Waiting msgs))) = true.
+  honoured watch msgs (runs_of (tr_outs (timed_run None None timeout watch deadline Waiting msgs))) = true.
 Proof.
   intros timeout watch. induction msgs as [|[at_ m] r IH]; intros deadline Hd Ht; cbn [honoured]; [reflexivity|].
   destruct (watch <=? at_)%N eqn:Hw; [reflexivity|].
   apply N.leb_gt in Hw.
-  cbn [timed_wait]. assert (Hw' : (watch <=? at_)%N = false) by (apply N.leb_gt; exact Hw). rewrite Hw'.
+  cbn [timed_run]. assert (Hw' : (watch <=? at_)%N = false) by (apply N.leb_gt; exact Hw). rewrite Hw'.
   assert (Hdl : (deadline <=? at_)%N = false) by (apply N.leb_gt; lia). rewrite Hdl.
   cbn [is_waiting andb].
   destruct m as [f|f [l|]|f]; try reflexivity.
-  - cbn [wait_step2 from_ok].
-    specialize (IH (at_ + timeout)%N).
-    destruct (timed_wait None timeout watch (at_ + timeout) Waiting r) as [o' late] eqn:Hrec.
-    cbn [fst app]. rewrite runs_of_cons_ready. cbn [fst] in IH. apply IH; lia.
-  - cbn [wait_step2 from_ok].
-    destruct (timed_wait None timeout watch deadline Running r) as [o' late].
-    cbn [fst app runs_of flat_map existsb snd]. rewrite list_peer_eqb_refl. reflexivity.
+  - cbn [wait_step2 from_ok tr_outs app]. rewrite runs_of_cons_ready. apply IH; lia.
+  - cbn [wait_step2 from_ok tr_outs app runs_of flat_map existsb snd]. rewrite list_peer_eqb_refl. reflexivity.
 Qed.
+
+Lemma timed_wait_honours : forall timeout watch msgs deadline,
+  (watch <= deadline)%N -> (watch <= timeout)%N ->
+  honoured watch msgs (runs_of (fst (timed_wait None timeout watch deadline Waiting msgs))) = true.
+Proof. intros. unfold timed_wait. cbn [fst]. apply timed_run_honours; assumption. Qed.
 
 Lemma left_out_honours : forall tm msgs,
   honoured (tss_to tm) msgs (runs_of (fst (left_out_wait tm msgs))) = true.
@@ -398,7 +398,7 @@ Qed.
 Lemma left_out_gives_up : forall tm at_ m r,
   (tss_to tm <= at_)%N -> left_out_wait tm ((at_, m) :: r) = ([], true).
 Proof.
-  intros tm at_ m r H. unfold left_out_wait, watch_timeout. cbn [timed_wait].
+  intros tm at_ m r H. unfold left_out_wait, timed_wait, watch_timeout. cbn [timed_run].
   assert (Hw : (tss_to tm <=? at_)%N = true) by (apply N.leb_le; exact H). rewrite Hw. reflexivity.
 Qed.
 
@@ -406,28 +406,247 @@ Qed.
 Lemma start_wait_gives_up : forall tm c2 at_ m r,
   (coord_to tm <= at_)%N -> retry_start_wait tm c2 ((at_, m) :: r) = ([], true).
 Proof.
-  intros tm c2 at_ m r H. unfold retry_start_wait, start_wait_timeout. cbn [timed_wait is_waiting andb].
+  intros tm c2 at_ m r H. unfold retry_start_wait, timed_wait, start_wait_timeout. cbn [timed_run is_waiting andb].
   assert (Hw : (coord_to tm <=? at_)%N = true) by (apply N.leb_le; exact H). rewrite Hw.
   destruct (watch_timeout tm <=? at_)%N; reflexivity.
 Qed.
 
-Lemma obs_allows_classified : forall (key : peer -> N) tm holders t self runs1 e winner ready2 msgs2,
+(* ---- only the coordinator's own initiate messages re-arm the coordinator-timeout ticker ---- *)
+
+Definition not_from (c : peer) (x : N * wmsg) : Prop := msg_from (snd x) <> c.
+
+(* messages of other peers - initiate, start, fail; however many, whenever - leave the relayer
+   waiting, produce nothing and leave the ticker's deadline where it was *)
+Lemma forged_traffic_no_rearm : forall c timeout watch msgs deadline,
+  Forall (not_from c) msgs ->
+  let w := timed_run (Some c) (Some c) timeout watch deadline Waiting msgs in
+  tr_outs w = [] /\ tr_state w = Waiting /\ tr_deadline w = deadline.
+Proof.
+  intros c timeout watch. induction msgs as [|[at_ m] r IH]; intros deadline Hf; cbn [timed_run].
+  - repeat split.
+  - inversion Hf as [|x l Hx Hr]; subst. unfold not_from in Hx. cbn [snd] in Hx.
+    destruct (watch <=? at_)%N; [repeat split|].
+    cbn [is_waiting andb]. destruct (deadline <=? at_)%N; [repeat split|].
+    assert (Hne : N.eqb (msg_from m) c = false) by (apply N.eqb_neq; exact Hx).
+    destruct m as [f|f ps|f]; cbn [msg_from] in Hne; cbn [wait_step2 from_ok fail_ok]; rewrite Hne;
+      cbn [tr_outs tr_late tr_state tr_deadline app]; apply IH; exact Hr.
+Qed.
+
+(* an unresponsive coordinator (see [coordinator_unresponsive]): the relayer is still waiting when the
+   messages end and its ticker fires before the session's TSS timeout *)
+Lemma unresponsive_run : forall tm (c : peer) msgs deadline,
+  (deadline < tss_to tm)%N ->
+  forallb (fun x : N * wmsg =>
+             match snd x with
+             | MInitiate f => negb (N.eqb f c) || (fst x + coord_to tm <? tss_to tm)%N
+             | MStart f _ => negb (N.eqb f c)
+             | MFail f => negb (N.eqb f c)
+             end) msgs = true ->
+  let w := timed_run (Some c) (Some c) (coord_to tm) (tss_to tm) deadline Waiting msgs in
+  tr_state w = Waiting /\ (tr_deadline w < tss_to tm)%N.
+Proof.
+  intros tm c. induction msgs as [|[at_ m] r IH]; intros deadline Hd Hall; cbn [timed_run].
+  - split; [reflexivity | exact Hd].
+  - cbn [forallb fst snd] in Hall. apply andb_true_iff in Hall. destruct Hall as [Hm Hr].
+    destruct (tss_to tm <=? at_)%N; [split; [reflexivity | exact Hd]|].
+    cbn [is_waiting andb]. destruct (deadline <=? at_)%N; [split; [reflexivity | exact Hd]|].
+    destruct m as [f|f ps|f]; cbn [wait_step2 from_ok fail_ok].
+    + destruct (N.eqb f c) eqn:Hfc; cbn [negb orb] in Hm; cbn [tr_state tr_deadline].
+      * apply IH; [apply N.ltb_lt; exact Hm | exact Hr].
+      * apply IH; assumption.
+    + apply negb_true_iff in Hm. rewrite Hm. cbn [tr_state tr_deadline]. apply IH; assumption.
+    + apply negb_true_iff in Hm. rewrite Hm. cbn [tr_state tr_deadline]. apply IH; assumption.
+Qed.
+
+(* ---- the replacement attempt's ready loop reaches its threshold ---- *)
+
+Lemma filter_length_le : forall (P Q : peer -> bool) l,
+  (forall h, In h l -> P h = true -> Q h = true) -> (length (filter P l) <= length (filter Q l))%nat.
+Proof.
+  intros P Q. induction l as [|x r IH]; intros H; cbn [filter length]; [lia|].
+  assert (IH' : (length (filter P r) <= length (filter Q r))%nat).
+  { apply IH. intros h Hh. apply H. right. exact Hh. }
+  destruct (P x) eqn:HP.
+  - rewrite (H x (or_introl eq_refl) HP). cbn [length]. lia.
+  - destruct (Q x); cbn [length]; lia.
+Qed.
+
+Lemma filter_length_but_one : forall (P Q : peer -> bool) f l,
+  NoDup l -> (forall h, In h l -> h <> f -> P h = true -> Q h = true) ->
+  (length (filter P l) <= length (filter Q l) + 1)%nat.
+Proof.
+  intros P Q f. induction l as [|x r IH]; intros Hnd H; cbn [filter length]; [lia|].
+  inversion Hnd as [|? ? Hx Hr]; subst.
+  destruct (N.eq_dec x f) as [->|Hne].
+  - assert (Hle : (length (filter P r) <= length (filter Q r))%nat).
+    { apply filter_length_le. intros h Hh HP. apply H; [right; exact Hh | | exact HP].
+      intros ->. exact (Hx Hh). }
+    destruct (P f); destruct (Q f); cbn [length]; lia.
+  - assert (IH' : (length (filter P r) <= length (filter Q r) + 1)%nat).
+    { apply IH; [exact Hr|]. intros h Hh. apply H. right. exact Hh. }
+    destruct (P x) eqn:HP.
+    + rewrite (H x (or_introl eq_refl) Hne HP). cbn [length]. lia.
+    + destruct (Q x); cbn [length]; lia.
+Qed.
+
+Lemma memb_cons : forall h f r, memb h (f :: r) = N.eqb h f || memb h r.
+Proof. reflexivity. Qed.
+
+Lemma memb_snoc : forall h l f, memb h (l ++ [f]) = memb h l || N.eqb h f.
+Proof. intros h l f. unfold memb. rewrite existsb_app. cbn [existsb]. rewrite orb_false_r. reflexivity. Qed.
+
+Definition fresh_ready (ex ready msgs : list peer) (h : peer) : bool :=
+  negb (memb h ex) && negb (memb h ready) && memb h msgs.
+
+Lemma initiate_live : forall key holders t ex msgs ready,
+  NoDup holders ->
+  (Z.of_nat (length (ready_participants holders ready)) <= t)%Z ->
+  (t + 1 <= Z.of_nat (length (ready_participants holders ready))
+            + Z.of_nat (length (filter (fresh_ready ex ready msgs) holders)))%Z ->
+  exists calls S, initiate key holders t ex ready msgs = (calls, Some S).
+Proof.
+  intros key holders t ex msgs. induction msgs as [|f r IH]; intros ready Hnd Hn Hcount.
+  - exfalso. assert (Hz : length (filter (fresh_ready ex ready []) holders) = 0%nat).
+    { clear. induction holders as [|x l IHl]; cbn [filter]; [reflexivity|].
+      unfold fresh_ready at 1. cbn [memb existsb]. rewrite andb_false_r. exact IHl. }
+    rewrite Hz in Hcount. lia.
+  - cbn [initiate]. unfold add_ready.
+    destruct (memb f ex || memb f ready) eqn:Hskip.
+    + assert (Hnr : is_ready holders t ready = false).
+      { unfold is_ready. apply Z.eqb_neq. lia. }
+      rewrite Hnr.
+      assert (Hsame : filter (fresh_ready ex ready (f :: r)) holders = filter (fresh_ready ex ready r) holders).
+      { apply filter_ext. intros h. unfold fresh_ready. rewrite memb_cons.
+        destruct (N.eqb h f) eqn:Hhf; [|reflexivity].
+        apply N.eqb_eq in Hhf. subst h. apply orb_true_iff in Hskip.
+        destruct Hskip as [Hs|Hs]; rewrite Hs; cbn [negb andb]; [reflexivity|]. rewrite andb_false_r. reflexivity. }
+      rewrite Hsame in Hcount. destruct (IH ready Hnd Hn Hcount) as [calls [S HS]]. rewrite HS.
+      exists (ready :: calls), S. reflexivity.
+    + apply orb_false_iff in Hskip. destruct Hskip as [Hfe Hfr].
+      assert (Hrp : ready_participants holders (ready ++ [f]) =
+                    ready_participants holders ready ++ (if memb f holders then [f] else [])).
+      { unfold ready_participants. rewrite filter_app. cbn [filter]. reflexivity. }
+      destruct (is_ready holders t (ready ++ [f])) eqn:Hrdy.
+      * eexists. eexists. reflexivity.
+      * unfold is_ready in Hrdy. apply Z.eqb_neq in Hrdy. rewrite Hrp, app_length in Hrdy.
+        assert (Hstep : (length (filter (fresh_ready ex ready (f :: r)) holders)
+                         <= length (filter (fresh_ready ex (ready ++ [f]) r) holders)
+                            + (if memb f holders then 1 else 0))%nat).
+        { destruct (memb f holders) eqn:Hfh.
+          - apply (filter_length_but_one _ _ f); [exact Hnd|].
+            intros h _ Hne. unfold fresh_ready. rewrite memb_cons, memb_snoc.
+            assert (Hhf : N.eqb h f = false) by (apply N.eqb_neq; exact Hne).
+            rewrite Hhf, orb_false_r. cbn [orb]. tauto.
+          - rewrite Nat.add_0_r. apply filter_length_le.
+            intros h Hh. unfold fresh_ready. rewrite memb_cons, memb_snoc.
+            assert (Hhf : N.eqb h f = false).
+            { apply N.eqb_neq. intros ->. apply memb_false_In in Hfh. exact (Hfh Hh). }
+            rewrite Hhf, orb_false_r. cbn [orb]. tauto. }
+        assert (Hn' : (Z.of_nat (length (ready_participants holders (ready ++ [f]))) <= t)%Z).
+        { rewrite Hrp, app_length. destruct (memb f holders); cbn [length] in *; lia. }
+        assert (Hc' : (t + 1 <= Z.of_nat (length (ready_participants holders (ready ++ [f])))
+                               + Z.of_nat (length (filter (fresh_ready ex (ready ++ [f]) r) holders)))%Z).
+        { rewrite Hrp, app_length. destruct (memb f holders); cbn [length] in *; lia. }
+        destruct (IH (ready ++ [f]) Hnd Hn' Hc') as [calls [S HS]]. rewrite HS.
+        exists ((ready ++ [f]) :: calls), S. reflexivity.
+Qed.
+
+(* enough reachable non-culprits answer ready: the replacement attempt announces a subset - whichever
+   peers cannot be reached *)
+Lemma enough_announces : forall key holders t ps unreach self ready2,
   In self holders ->
+  enough holders t ps unreach self ready2 = true ->
+  exists calls S, initiate key holders t ps [self] ready2 = (calls, Some S).
+Proof.
+  intros key holders t ps unreach self ready2 Hsh He. unfold enough in He.
+  apply andb_true_iff in He. destruct He as [He Hcnt]. apply andb_true_iff in He. destruct He as [Hnd Ht].
+  apply nodupb_NoDup in Hnd. apply Z.leb_le in Ht. apply Z.leb_le in Hcnt.
+  assert (Hone : ready_participants holders [self] = [self]).
+  { unfold ready_participants. cbn [filter]. apply memb_In in Hsh. rewrite Hsh. reflexivity. }
+  apply initiate_live; [exact Hnd | rewrite Hone; cbn [length]; lia |].
+  rewrite Hone. cbn [length].
+  assert (Hle : (length (reachable_ready holders ps unreach self ready2)
+                 <= length (filter (fresh_ready ps [self] ready2) holders))%nat).
+  { unfold reachable_ready. apply filter_length_le. intros h _ H. unfold fresh_ready.
+    repeat (apply andb_true_iff in H; destruct H as [H ?]).
+    cbn [memb existsb]. rewrite orb_false_r.
+    repeat (apply andb_true_iff; split); assumption. }
+  lia.
+Qed.
+
+(* ---- who is told ---- *)
+
+Definition wf_table (m : nat) (holders : list peer) : Prop := forall p, In p holders -> (N.to_nat p < m)%nat.
+
+Lemma all_peers_In : forall m p, (N.to_nat p < m)%nat -> In p (all_peers m).
+Proof.
+  intros m p H. unfold all_peers. apply in_map_iff. exists (N.to_nat p). split; [apply N2Nat.id|].
+  apply in_seq. lia.
+Qed.
+
+Lemma told_no_coord : forall holders self ex runs starts,
+  forallb (fun r : bool * list peer => negb (fst r)) runs = true -> told holders self ex runs starts = true.
+Proof.
+  intros holders self ex runs starts H. unfold told. eapply forallb_impl; [|exact H].
+  intros r Hr. apply negb_true_iff in Hr. rewrite Hr. reflexivity.
+Qed.
+
+Lemma told_app : forall holders self ex r1 r2 starts,
+  told holders self ex (r1 ++ r2) starts = told holders self ex r1 starts && told holders self ex r2 starts.
+Proof. intros. unfold told. apply forallb_app. Qed.
+
+Lemma told_starts_of : forall m holders self ex runs pre post,
+  wf_table m holders -> told holders self ex runs (pre ++ starts_of m runs ++ post) = true.
+Proof.
+  intros m holders self ex runs pre post Hwf. revert pre. induction runs as [|[b l] r IH]; intros pre; [reflexivity|].
+  unfold told. cbn [forallb fst snd]. fold (told holders self ex r (pre ++ starts_of m ((b, l) :: r) ++ post)).
+  apply andb_true_iff. split.
+  - destruct b; [|reflexivity]. apply existsb_exists. exists (l, all_peers m). split.
+    + apply in_or_app. right. cbn [starts_of flat_map fst app]. left. reflexivity.
+    + cbn [fst snd]. rewrite list_peer_eqb_refl. cbn [andb]. apply forallb_forall. intros p Hp.
+      apply memb_In. apply all_peers_In. apply Hwf. apply exclude_spec in Hp. tauto.
+  - cbn [starts_of flat_map fst snd]. fold (starts_of m r). destruct b.
+    + cbn [app]. specialize (IH (pre ++ [(l, all_peers m)])). rewrite <- app_assoc in IH. exact IH.
+    + cbn [app]. apply IH.
+Qed.
+
+Lemma told_sound : forall holders self ex runs starts,
+  told holders self ex runs starts = true ->
+  forall sub, In (true, sub) runs ->
+  exists to, In (sub, to) starts /\ forall p, In p holders -> p <> self -> ~ In p ex -> In p to.
+Proof.
+  intros holders self ex runs starts H sub Hin. unfold told in H. rewrite forallb_forall in H.
+  specialize (H _ Hin). cbn [fst snd] in H. apply existsb_exists in H. destruct H as [[l to] [Hs H]].
+  cbn [fst snd] in H. apply andb_true_iff in H. destruct H as [Hl Hto]. apply list_peer_eqb_eq in Hl. subst l.
+  exists to. split; [exact Hs|]. intros p Hh Hne Hex. rewrite forallb_forall in Hto. apply memb_In. apply Hto.
+  apply exclude_spec. split; [exact Hh|]. intros [->|Hx]; [apply Hne; reflexivity | exact (Hex Hx)].
+Qed.
+
+(* ---- the judge accepts the model ---- *)
+
+Lemma skipn_exact_nil : forall (A : Type) (a : list A), skipn (length a) a = [].
+Proof. intros A a. rewrite <- (app_nil_r a) at 2. apply skipn_app_exact. Qed.
+
+Lemma firstn_app_exact : forall (A : Type) (a b : list A), firstn (length a) (a ++ b) = a.
+Proof. intros A a b. induction a as [|x r IH]; cbn [length firstn app]; [destruct b; reflexivity | rewrite IH; reflexivity]. Qed.
+
+Lemma obs_allows_classified : forall (key : peer -> N) tm m holders t self unreach runs1 e winner ready2 msgs2,
+  In self holders -> wf_table m holders ->
   (forall ps, classify e = RetryExcluding ps -> ~ In self ps) ->
   classify e <> GiveUp ->
-  obs_allows tm msgs2 holders (length runs1)
-    (continue key tm classify holders t self true runs1 e winner ready2 msgs2) (classify e) = true.
+  obs_allows (mkEnv tm holders t self unreach ready2 msgs2) (length runs1)
+    (continue key tm m classify holders t self true runs1 e winner ready2 msgs2) (classify e) = true.
 Proof.
-  intros key tm holders t self runs1 e winner ready2 msgs2 Hsh Hself Hng.
+  intros key tm m holders t self unreach runs1 e winner ready2 msgs2 Hsh Hwf Hself Hng.
   unfold continue, after_failure_with. cbn [negb].
   destruct (classify e) as [ps| | |] eqn:Hc; [| | congruence |].
   - (* retry *)
     destruct (N.eqb (bully_result key self winner (exclude holders ps)) self).
     + destruct (initiate key holders t ps [self] ready2) as [calls ann] eqn:Hinit.
-      unfold obs_allows. cbn [o_elected o_runs o_calls2].
+      unfold obs_allows. cbn [o_elected o_runs o_calls2 o_inits2 o_starts e_holders e_t e_self e_unreach e_ready2].
       rewrite skipn_app_exact.
       rewrite (same_set_perm _ _ (sort_perm key (exclude holders ps))). cbn [andb].
-      apply andb_true_iff. split.
+      repeat (apply andb_true_iff; split).
       * destruct ann as [sub|]; cbn [forallb fst snd]; [|reflexivity].
         rewrite andb_true_r. apply forallb_forall. intros p Hp. apply negb_true_iff. apply memb_false_In.
         intros Hps.
@@ -435,32 +654,58 @@ Proof.
         destruct Hspec as [_ [_ [_ [_ [_ Hex]]]]]. exact (Hex p Hp Hps).
       * apply forallb_forall. intros c Hin. apply in_map_iff in Hin. destruct Hin as [r [<- _]].
         cbn [snd]. apply same_set_refl.
-    + unfold obs_allows. cbn [o_elected o_runs o_calls2].
+      * destruct (enough holders t ps unreach self ready2) eqn:He; [|reflexivity].
+        destruct (enough_announces key holders t ps unreach self ready2 Hsh He) as [calls' [S HS]].
+        rewrite HS in Hinit. inversion Hinit; subst. reflexivity.
+      * pose proof (told_starts_of m holders self ps (match ann with Some sub => [(true, sub)] | None => [] end)
+                      (starts_of m runs1) [] Hwf) as Ht.
+        rewrite app_nil_r in Ht. exact Ht.
+    + unfold obs_allows. cbn [o_elected o_runs o_calls2 o_inits2 o_starts e_holders e_t e_self e_unreach e_ready2].
       rewrite skipn_app_exact.
       rewrite (same_set_perm _ _ (sort_perm key (exclude holders ps))). cbn [andb forallb].
-      rewrite andb_true_r.
-      eapply forallb_impl; [|apply runs_of_flags].
-      intros r Hr. apply negb_true_iff in Hr. rewrite Hr. reflexivity.
+      repeat (apply andb_true_iff; split); try reflexivity.
+      * eapply forallb_impl; [|apply runs_of_flags].
+        intros r Hr. apply negb_true_iff in Hr. rewrite Hr. reflexivity.
+      * apply told_no_coord. apply runs_of_flags.
   - (* wait *)
-    unfold obs_allows. cbn [o_elected o_final o_runs].
+    unfold obs_allows. cbn [o_elected o_final o_runs e_tm e_msgs2].
     rewrite skipn_app_exact. rewrite left_out_honours. rewrite andb_true_r.
     destruct (has_bad _ || _); reflexivity.
   - (* decode error *)
     unfold obs_allows. cbn [o_elected o_runs o_final].
-    replace (skipn (length runs1) runs1) with (@nil (bool * list peer)); [reflexivity|].
-    rewrite <- (app_nil_r runs1) at 2. rewrite skipn_app_exact. reflexivity.
+    rewrite skipn_exact_nil. reflexivity.
 Qed.
 
-Lemma spec_ok_model : forall (key : peer -> N) tm holders t self retryable runs1 e winner ready2 msgs2,
-  In self holders ->
-  (forall ps, classify e = RetryExcluding ps -> ~ In self ps) ->
-  spec_ok tm msgs2 holders retryable e (length runs1)
-    (continue key tm classify holders t self retryable runs1 e winner ready2 msgs2) = true.
+(* every continuation keeps the first attempt's runs and start broadcasts in front *)
+Lemma continue_prefix : forall (key : peer -> N) tm m cl holders t self retryable runs1 e winner ready2 msgs2,
+  exists r2 s2,
+    o_runs (continue key tm m cl holders t self retryable runs1 e winner ready2 msgs2) = runs1 ++ r2
+    /\ o_starts (continue key tm m cl holders t self retryable runs1 e winner ready2 msgs2) = starts_of m runs1 ++ s2.
 Proof.
-  intros key tm holders t self retryable runs1 e winner ready2 msgs2 Hsh Hself.
-  assert (Hskip : skipn (length runs1) runs1 = []).
-  { rewrite <- (app_nil_r runs1) at 2. apply skipn_app_exact. }
-  unfold spec_ok. destruct retryable; cbn [negb].
+  intros. unfold continue.
+  destruct (after_failure_with cl retryable holders e) as [| |cands ex|].
+  - exists [], []. cbn [o_runs o_starts]. rewrite !app_nil_r. split; reflexivity.
+  - exists [], []. cbn [o_runs o_starts]. rewrite !app_nil_r. split; reflexivity.
+  - destruct (N.eqb (bully_result key self winner cands) self).
+    + destruct (initiate key holders t ex [self] ready2) as [calls ann].
+      eexists. eexists. cbn [o_runs o_starts]. split; reflexivity.
+    + eexists. exists []. cbn [o_runs o_starts]. split; [reflexivity | rewrite app_nil_r; reflexivity].
+  - eexists. exists []. cbn [o_runs o_starts]. split; [reflexivity | rewrite app_nil_r; reflexivity].
+Qed.
+
+Lemma spec_ok_model : forall (key : peer -> N) tm m holders t self unreach retryable runs1 e winner ready2 msgs2,
+  In self holders -> wf_table m holders ->
+  (forall ps, classify e = RetryExcluding ps -> ~ In self ps) ->
+  spec_ok (mkEnv tm holders t self unreach ready2 msgs2) retryable e (length runs1)
+    (continue key tm m classify holders t self retryable runs1 e winner ready2 msgs2) = true.
+Proof.
+  intros key tm m holders t self unreach retryable runs1 e winner ready2 msgs2 Hsh Hwf Hself.
+  pose proof (skipn_exact_nil _ runs1) as Hskip.
+  unfold spec_ok. apply andb_true_iff. split.
+  { destruct (continue_prefix key tm m classify holders t self retryable runs1 e winner ready2 msgs2) as [r2 [s2 [Hr Hs]]].
+    rewrite Hr, Hs, firstn_app_exact. cbn [e_holders e_self].
+    apply (told_starts_of m holders self [] runs1 [] s2 Hwf). }
+  destruct retryable; cbn [negb].
   - destruct (classify_sound e) as [Hg|[k [Hin Ha]]].
     + pose proof (proj1 (classify_giveup_iff e) Hg) as Hnone. rewrite Hnone.
       unfold continue, after_failure_with. cbn [negb]. rewrite Hg.
@@ -473,46 +718,136 @@ Proof.
     unfold obs_allows. cbn [o_elected o_runs o_final]. rewrite Hskip. reflexivity.
 Qed.
 
+(* the ready messages are not the judge's subject *)
+Lemma spec_ok_with_readies : forall ev retryable e nfirst rs o,
+  spec_ok ev retryable e nfirst (with_readies rs o) = spec_ok ev retryable e nfirst o.
+Proof. reflexivity. Qed.
+
+(* a coordinator that is unresponsive in the sense of the specification - whatever other peers send
+   meanwhile - is classified as such: the judge's demand (the CoordinatorError retry) holds of the model *)
+Lemma silent_ok_model : forall (key : peer -> N) tm m holders t self unreach retryable msgs1 winner ready2 msgs2 c,
+  coordinator key holders = Some c -> In self holders -> self <> c -> wf_table m holders ->
+  silent_ok (mkEnv tm holders t self unreach ready2 msgs2) retryable c msgs1
+    (session_silent key tm m classify holders t self retryable msgs1 winner ready2 msgs2) = true.
+Proof.
+  intros key tm m holders t self unreach retryable msgs1 winner ready2 msgs2 c Hc Hsh Hne Hwf.
+  unfold silent_ok. cbn [e_tm].
+  destruct (coordinator_unresponsive tm c msgs1) eqn:Hu; [|reflexivity].
+  unfold coordinator_unresponsive in Hu. apply andb_true_iff in Hu. destruct Hu as [Hlt Hall].
+  apply N.ltb_lt in Hlt.
+  unfold session_silent. rewrite Hc. cbv zeta. unfold silent_wait, start_wait_timeout, watch_timeout.
+  destruct (unresponsive_run tm c msgs1 (coord_to tm) Hlt Hall) as [Hst Hdl].
+  rewrite Hst. apply N.ltb_lt in Hdl. rewrite Hdl.
+  rewrite spec_ok_with_readies.
+  apply (spec_ok_model key tm m holders t self unreach retryable [] _ winner ready2 msgs2 Hsh Hwf).
+  intros ps Hps. assert (Hcl : classify (pool_join [Node (KCoord c) []]) = RetryExcluding [c]) by reflexivity.
+  rewrite Hcl in Hps. inversion Hps; subst. intros [H|[]]. apply Hne. symmetry. exact H.
+Qed.
+
+(* two relayers: the judge accepts what the model's coordinator and the model's other relayer do *)
+Lemma duo_ok_model : forall (key : peer -> N) tm m holders t a c unreach ready1 msgs2,
+  In c holders -> wf_table m holders ->
+  duo_ok (mkEnv tm holders t c unreach [] msgs2) a
+    (duo_a key m holders t a ready1) (duo_c key tm m classify holders t a c ready1 msgs2) = true.
+Proof.
+  intros key tm m holders t a c unreach ready1 msgs2 Hch Hwf.
+  unfold duo_ok, duo_a, duo_c. cbn [e_holders e_self].
+  destruct (duo_subset key holders t a ready1) as [sub|]; [|reflexivity].
+  cbn [o_runs o_starts]. apply andb_true_iff. split.
+  { pose proof (told_starts_of m holders a [] [(true, sub)] [] [] Hwf) as Ht. rewrite app_nil_r in Ht. exact Ht. }
+  destruct (memb c sub) eqn:Hm; [reflexivity|].
+  destruct (continue_prefix key tm m classify holders t c true [(false, sub)] left_out_error None [] msgs2)
+    as [r2 [s2 [Hr _]]].
+  rewrite Hr. cbn [app]. rewrite list_peer_eqb_refl. cbn [andb].
+  apply (spec_ok_model key tm m holders t c unreach true [(false, sub)] left_out_error None [] msgs2 Hch Hwf).
+  intros ps Hps. assert (Hcl : classify left_out_error = WaitForStart) by reflexivity. rewrite Hcl in Hps. discriminate.
+Qed.
+
 (* what an accepted observation means, case by case *)
-Lemma obs_allows_retry_sound : forall tm msgs2 holders nfirst o ps,
-  obs_allows tm msgs2 holders nfirst o (RetryExcluding ps) = true ->
+Lemma obs_allows_retry_sound : forall ev nfirst o ps,
+  obs_allows ev nfirst o (RetryExcluding ps) = true ->
   exists cs, o_elected o = Some cs
     /\ (forall p, In p ps -> ~ In p cs)
-    /\ (forall p, In p holders -> ~ In p ps -> In p cs)
-    /\ (forall sub, In (true, sub) (skipn nfirst (o_runs o)) -> forall p, In p ps -> ~ In p sub).
+    /\ (forall p, In p (e_holders ev) -> ~ In p ps -> In p cs)
+    /\ (forall sub, In (true, sub) (skipn nfirst (o_runs o)) -> forall p, In p ps -> ~ In p sub)
+    (* the attempt runs without depending on the culprits *)
+    /\ (o_inits2 o <> [] -> enough (e_holders ev) (e_t ev) ps (e_unreach ev) (e_self ev) (e_ready2 ev) = true ->
+        exists sub, In (true, sub) (skipn nfirst (o_runs o)))
+    (* and everybody else is told *)
+    /\ (forall sub, In (true, sub) (skipn nfirst (o_runs o)) ->
+        exists to, In (sub, to) (o_starts o)
+                   /\ forall p, In p (e_holders ev) -> p <> e_self ev -> ~ In p ps -> In p to).
 Proof.
-  intros tm msgs2 holders nfirst o ps H. unfold obs_allows in H.
+  intros ev nfirst o ps H. unfold obs_allows in H.
   destruct (o_elected o) as [cs|]; [|discriminate]. exists cs. split; [reflexivity|].
+  apply andb_true_iff in H. destruct H as [H H5]. apply andb_true_iff in H. destruct H as [H H4].
   apply andb_true_iff in H. destruct H as [H H3]. apply andb_true_iff in H. destruct H as [H1 H2].
   unfold same_set in H1. apply andb_true_iff in H1. destruct H1 as [Ha Hb].
   rewrite forallb_forall in Ha, Hb. repeat split.
   - intros p Hp Hc. specialize (Ha p Hc). apply memb_In in Ha. apply exclude_spec in Ha. tauto.
-  - intros p Hh Hn. assert (Hin : In p (exclude holders ps)) by (apply exclude_spec; tauto).
+  - intros p Hh Hn. assert (Hin : In p (exclude (e_holders ev) ps)) by (apply exclude_spec; tauto).
     specialize (Hb p Hin). apply memb_In. exact Hb.
   - intros sub Hin p Hp Hs. rewrite forallb_forall in H2. specialize (H2 _ Hin). cbn [fst snd] in H2.
     rewrite forallb_forall in H2. specialize (H2 p Hs). apply negb_true_iff in H2.
     apply memb_false_In in H2. exact (H2 Hp).
+  - intros Hi He. destruct (o_inits2 o) as [|i0 ir]; [congruence|]. rewrite He in H4.
+    apply existsb_exists in H4. destruct H4 as [[b sub] [Hin Hb']]. cbn [fst] in Hb'. subst b.
+    exists sub. exact Hin.
+  - intros sub Hin. exact (told_sound _ _ _ _ _ H5 sub Hin).
 Qed.
 
-Lemma obs_allows_giveup_sound : forall tm msgs2 holders nfirst o,
-  obs_allows tm msgs2 holders nfirst o GiveUp = true ->
+Lemma obs_allows_giveup_sound : forall ev nfirst o,
+  obs_allows ev nfirst o GiveUp = true ->
   o_elected o = None /\ skipn nfirst (o_runs o) = [] /\ o_final o = FOriginal.
 Proof.
-  intros tm msgs2 holders nfirst o H. unfold obs_allows in H.
+  intros ev nfirst o H. unfold obs_allows in H.
   destruct (o_elected o); [discriminate|]. destruct (skipn nfirst (o_runs o)); [|discriminate].
   apply N.eqb_eq in H. auto.
 Qed.
 
-Lemma obs_allows_wait_sound : forall tm msgs2 holders nfirst o,
-  obs_allows tm msgs2 holders nfirst o WaitForStart = true ->
+Lemma obs_allows_wait_sound : forall ev nfirst o,
+  obs_allows ev nfirst o WaitForStart = true ->
   o_elected o = None /\ o_final o <> FOriginal
   /\ (forall pre at_ f l post,
-        msgs2 = pre ++ (at_, MStart f (Some l)) :: post ->
-        Forall (early_initiate (tss_to tm)) pre -> (at_ < tss_to tm)%N ->
+        e_msgs2 ev = pre ++ (at_, MStart f (Some l)) :: post ->
+        Forall (early_initiate (tss_to (e_tm ev))) pre -> (at_ < tss_to (e_tm ev))%N ->
         exists r, In r (skipn nfirst (o_runs o)) /\ snd r = l).
 Proof.
-  intros tm msgs2 holders nfirst o H. unfold obs_allows in H.
+  intros ev nfirst o H. unfold obs_allows in H.
   destruct (o_elected o); [discriminate|]. apply andb_true_iff in H. destruct H as [H Hh].
   apply negb_true_iff in H. apply N.eqb_neq in H. repeat split; auto.
-  intros pre at_ f l post -> Hpre Hat. eapply honoured_sound; eassumption.
+  intros pre at_ f l post Heq Hpre Hat. rewrite Heq in Hh. eapply honoured_sound; eassumption.
+Qed.
+
+(* an accepted silent-coordinator session: with an unresponsive coordinator [c] and a retryable
+   process the relayer held an election without [c] - whatever the other peers sent meanwhile *)
+Lemma silent_ok_sound : forall ev c msgs1 o,
+  silent_ok ev true c msgs1 o = true -> coordinator_unresponsive (e_tm ev) c msgs1 = true ->
+  exists cs, o_elected o = Some cs /\ ~ In c cs /\ (forall p, In p (e_holders ev) -> p <> c -> In p cs).
+Proof.
+  intros ev c msgs1 o H Hu. unfold silent_ok in H. rewrite Hu in H. unfold spec_ok in H.
+  apply andb_true_iff in H. destruct H as [_ H]. cbn [negb] in H.
+  assert (Hk : recognised_kinds (pool_join [Node (KCoord c) []]) = [KCoord c]) by reflexivity.
+  rewrite Hk in H. cbn [existsb action_of_kind] in H. rewrite orb_false_r in H.
+  destruct (obs_allows_retry_sound _ _ _ _ H) as [cs [He [H1 [H2 _]]]].
+  exists cs. split; [exact He|]. split.
+  - apply H1. left. reflexivity.
+  - intros p Hp Hne. apply H2; [exact Hp|]. intros [Hx|[]]. apply Hne. symmetry. exact Hx.
+Qed.
+
+(* an accepted two-relayer observation: a key holder the coordinator's subset leaves out ran its first
+   attempt with that subset (it was told), held no election and did not end with the failure *)
+Lemma duo_ok_sound : forall ev a oa oc sub rest,
+  duo_ok ev a oa oc = true -> o_runs oa = (true, sub) :: rest -> ~ In (e_self ev) sub ->
+  (exists rest', o_runs oc = (false, sub) :: rest') /\ o_elected oc = None /\ o_final oc <> FOriginal.
+Proof.
+  intros ev a oa oc sub rest H Hr Hn. unfold duo_ok in H. apply andb_true_iff in H. destruct H as [_ H].
+  rewrite Hr in H. apply memb_false_In in Hn. rewrite Hn in H.
+  destruct (o_runs oc) as [|[[|] sub'] rest'] eqn:Hc; try discriminate.
+  apply andb_true_iff in H. destruct H as [Hl H]. apply list_peer_eqb_eq in Hl. subst sub'.
+  split; [exists rest'; reflexivity|].
+  unfold spec_ok in H. apply andb_true_iff in H. destruct H as [_ H]. cbn [negb] in H.
+  assert (Hk : recognised_kinds left_out_error = [KSubset]) by reflexivity.
+  rewrite Hk in H. cbn [existsb action_of_kind] in H. rewrite orb_false_r in H.
+  destruct (obs_allows_wait_sound _ _ _ H) as [H1 [H2 _]]. split; assumption.
 Qed.
